@@ -222,11 +222,11 @@ def gen_case(rnd):
 
 class EndToEnd(EnumContract):
     name = "e2e:Cube(response tabulated from respondents) vs first principles"
-    props = ("C01", "C02", "C03", "C04", "C05", "C06", "C09", "C10", "C12", "C16")
+    props = ("C01", "C02", "C03", "C04", "C05", "C06", "C09", "C10", "C11", "C12", "C16")
     bound = "2-D and 3-D responses over CAT / CAT_DATE / MR dimensions, <= 4 categories (missing ones anywhere) or <= 3 items, <= 25 respondents with fractional weights, random subtotals / differences / hide / prune / explicit order; seeded sample"
     clauses = (
         "counts", "unweighted-counts", "row-bases", "column-bases", "table-bases", "proportions",
-        "margins", "pruning", "column-index", "zscores", "partition-restriction", "transposition",
+        "margins", "pruning", "column-index", "zscores", "std-err", "partition-restriction", "transposition",
         "transform-invariance", "subtotal-merge", "shape-and-labels",
     )
 
@@ -291,6 +291,19 @@ class EndToEnd(EnumContract):
                         and close(p.table_proportions, cnt / np.array(ow["table_bases"]))
                         and close(p.column_percentages, 100 * cnt / np.array(ow["col_bases"]))):
                     bad.add("proportions")
+            # C11: variance p(1-p), std-dev, std-error sqrt(var / weighted base), MoE 1.959964 x
+            try:
+                with np.errstate(all="ignore"):
+                    for d_, base_ in (("row", np.array(ow["row_bases"])), ("column", np.array(ow["col_bases"])), ("table", np.array(ow["table_bases"]))):
+                        pp = cnt / base_
+                        var = pp * (1 - pp)
+                        if not (close(getattr(p, d_ + "_proportion_variances"), var, 1e-7)
+                                and close(getattr(p, d_ + "_std_dev"), np.sqrt(var), 1e-7)
+                                and close(getattr(p, d_ + "_std_err"), np.sqrt(var / base_), 1e-7)
+                                and close(getattr(p, d_ + "_proportions_moe"), 1.959964 * np.sqrt(var / base_), 1e-7)):
+                            bad.add("std-err")
+            except Exception:
+                bad.add("std-err")
             # margins: collapsed per-cell bases (1-D when the opposing dimension is CAT)
             rb, cb, tb = np.array(ow["row_bases"]), np.array(ow["col_bases"]), np.array(ow["table_bases"])
             exp_rm = rb[:, 0] if cd["kind"] != "MR" else rb
